@@ -349,6 +349,17 @@ class LazyArr:
 _DASK_PATCHED = False
 
 
+def compute_together(tasks):
+    """compute all tasks in ONE dask graph, as the loaders do (construct_dask().compute()): tasks that share a key are merged by dask,
+    so colliding task keys become visible; falls back to one-by-one for stand-in tasks that are not dask collections"""
+    import dask
+
+    tasks = list(tasks)
+    if tasks and all(dask.is_dask_collection(t) for t in tasks):
+        return list(dask.compute(*tasks))
+    return [t.compute() for t in tasks]
+
+
 def patch_dask_from_delayed():
     """In this (worker) process, let dask.array.from_delayed accept symbolic declared shapes."""
     global _DASK_PATCHED
